@@ -31,7 +31,11 @@ func c20handler(idx int) {
 			h.setupUserState(1, c)
 		}
 		h.assumeThresholdInvariant()
-		_, panicked, _ = h.callUser(idx, c)
+		var m *userMsg
+		_, panicked, m = h.callUser(idx, c)
+		if idx == hReceiveMessage || idx == hReplaceMessage || idx == hReplaceDepositForBurn {
+			verifrt.ProbeAttestation("m_message", "m_attestation", "att", m.Message, m.Attestation, h.Att, maxSigs)
+		}
 	}
 	verifrt.Cover("returned")
 	verifrt.Assert("C20/handler/no-panic", !panicked)
